@@ -168,6 +168,9 @@ class Gen:
             init.append(("simult", [(xs[0], det(var(xs[1]))), (xs[1], det(var(xs[0])))]))
         self.random_stmts = 0
         body = self.block(0, r.randint(1, 3 + self.size))
+        if self.random_stmts == 0 and r.random() < 0.85:
+            # keep purely deterministic programs rare: one draw at a random top-level position
+            body.insert(r.randint(0, len(body)), ("assign", r.choice(self.vars), self.random_rhs()))
         if self.use_b and r.random() < 0.7:
             body.insert(r.randint(0, len(body)), ("assign", "b", ("draw", ("bern", const(r.choice(DY))))))
         g = self.guard()
